@@ -4,7 +4,7 @@ from abc import ABC, abstractmethod
 from copy import deepcopy
 from dataclasses import dataclass, field
 from datetime import timedelta
-from typing import Dict, List, Optional
+from typing import Dict, List, Optional, Set
 
 from hexital.core.candle import Candle
 from hexital.core.candle_manager import CandleManager
@@ -301,13 +301,17 @@ class Indicator(ABC):
             index if index is not None else self._active_index,
         )
 
+    def _purge_names(self) -> Set[str]:
+        names = {self.name}
+        for indicator in self.sub_indicators.values():
+            names |= indicator._purge_names()
+        for indicator in self.managed_indicators.values():
+            names |= indicator._purge_names()
+        return names
+
     def purge(self):
         """Remove this indicator value from all Candles"""
-        self._candles.purge(
-            {self.name}
-            | {indicator.name for indicator in self.sub_indicators.values()}
-            | {indicator.name for indicator in self.managed_indicators.values()}
-        )
+        self._candles.purge(self._purge_names())
 
     def recalculate(self):
         """Re-calculate this indicator value for all Candles"""
